@@ -301,6 +301,8 @@ func main() {
 		}
 	}, r.PanicViolation("crl.FileCache.Get on corrupted entry"))
 
+	largeEntries(r)
+	expiredUnderContention(r)
 	r.RequireAtLeast("get-expect-hit", 1000)
 	r.RequireAtLeast("get-expect-miss-expired", 1000)
 	r.RequireAtLeast("get-expect-miss-never-stored", 1000)
@@ -410,4 +412,124 @@ func judge(r *lib.Run, v []byte, got *corecrl.Bundle, gerr error, id string) {
 	if !okBase || !okDelta {
 		r.Violation(map[string]string{"kind": "unfaithful-bundle"}, fmt.Sprintf("Get returned a bundle that is not byte-faithful to the stored file (base ok=%v delta ok=%v)", okBase, okDelta), wit)
 	}
+}
+
+// largeEntries: a CRL may legitimately be tens of MiB (the fetcher of notation-core-go accepts up to 32 MiB per CRL), and
+// an entry file holds base64 of base AND delta. Whatever Set accepted, Get must give back byte for byte.
+func largeEntries(r *lib.Run) {
+	ctx := context.Background()
+	far := time.Now().Add(10 * 365 * 24 * time.Hour)
+	type sz struct{ base, delta int }
+	sizes := []sz{{20 << 20, 6 << 20}}
+	if r.Thorough() {
+		sizes = append(sizes, sz{31 << 20, 0}, sz{12 << 20, 12<<20 + 4096}, sz{31 << 20, 31 << 20})
+	}
+	for i, s := range sizes {
+		base := lib.TempDir("c15big")
+		c, err := crl.NewFileCache(base)
+		if err != nil {
+			panic(err)
+		}
+		b := &corecrl.Bundle{BaseCRL: lib.MintBigCRL(int64(900000+2*i), far, s.base, byte(i))}
+		if s.delta > 0 {
+			b.DeltaCRL = lib.MintBigCRL(int64(900001+2*i), far, s.delta, byte(i+100))
+		}
+		u := fmt.Sprintf("http://big.example/%d.crl", i)
+		id := fmt.Sprintf("large entry base=%d MiB delta=%d MiB", s.base>>20, s.delta>>20)
+		r.Eval(id)
+		if err := c.Set(ctx, u, b); err != nil {
+			r.Event("large-entry-set-refused") // refusing to store is not a breach of what Get promises
+			os.RemoveAll(base)
+			continue
+		}
+		got, gerr := c.Get(ctx, u)
+		switch {
+		case gerr != nil || got == nil:
+			r.Violation(map[string]string{"kind": "large-entry-lost"}, fmt.Sprintf("%s: Set succeeded, the following Get returned %v", id, gerr), nil)
+		case !bytes.Equal(got.BaseCRL.Raw, b.BaseCRL.Raw) || (b.DeltaCRL == nil) != (got.DeltaCRL == nil) || (b.DeltaCRL != nil && !bytes.Equal(got.DeltaCRL.Raw, b.DeltaCRL.Raw)):
+			r.Violation(map[string]string{"kind": "large-entry-unfaithful"}, id+": Get returned other bytes than were stored", nil)
+		default:
+			r.Event("large-entry-round-trips")
+		}
+		os.RemoveAll(base)
+	}
+}
+
+// expiredUnderContention: an expired entry is a miss for EVERY reader, also when several read it at once, and reading
+// it never costs a bundle stored meanwhile: once a Set of a fresh bundle has returned (and all readers that overlapped
+// it are done), the next Get returns that bundle.
+func expiredUnderContention(r *lib.Run) {
+	ctx := context.Background()
+	now := time.Now()
+	expired := &corecrl.Bundle{BaseCRL: lib.MintCRL(910001, now.Add(-48*time.Hour), 300<<10)}
+	fresh := &corecrl.Bundle{BaseCRL: lib.MintCRL(910002, now.Add(10*365*24*time.Hour), 300<<10)}
+	rounds := r.N(40, 600)
+	lib.Parallel(rounds, 4, func(k int) {
+		base := lib.TempDir("c15exp")
+		defer os.RemoveAll(base)
+		c, err := crl.NewFileCache(base)
+		if err != nil {
+			panic(err)
+		}
+		u := fmt.Sprintf("http://expired.example/%d.crl", k)
+		if err := c.Set(ctx, u, expired); err != nil {
+			panic(err)
+		}
+		const readers = 8
+		errs := make([]error, readers)
+		gots := make([]*corecrl.Bundle, readers)
+		var wg sync.WaitGroup
+		start := make(chan struct{})
+		for g := 0; g < readers; g++ {
+			wg.Add(1)
+			go func(g int) {
+				defer wg.Done()
+				<-start
+				gots[g], errs[g] = c.Get(ctx, u)
+			}(g)
+		}
+		close(start)
+		wg.Wait()
+		r.Eval(fmt.Sprintf("expired-contention/%d", k))
+		for g := range errs {
+			if gots[g] != nil || !errors.Is(errs[g], corecrl.ErrCacheMiss) {
+				r.Violation(map[string]string{"kind": "expired-not-a-miss"}, fmt.Sprintf("round %d: reader %d of %d reading one expired entry at once got (bundle=%v, err=%v), expected a cache miss", k, g, readers, gots[g] != nil, errs[g]), nil)
+			}
+		}
+		r.Event("expired-concurrent-reads")
+		// readers of the expired entry overlapping a Set of a fresh one
+		if err := c.Set(ctx, u, expired); err != nil {
+			panic(err)
+		}
+		start2 := make(chan struct{})
+		var wg2 sync.WaitGroup
+		for g := 0; g < 4; g++ {
+			wg2.Add(1)
+			go func(g int) {
+				defer wg2.Done()
+				<-start2
+				for j := 0; j < 3; j++ {
+					c.Get(ctx, u)
+				}
+			}(g)
+		}
+		wg2.Add(1)
+		var serr error
+		go func() {
+			defer wg2.Done()
+			<-start2
+			serr = c.Set(ctx, u, fresh)
+		}()
+		close(start2)
+		wg2.Wait()
+		if serr != nil {
+			r.Event("contended-set-refused")
+			return
+		}
+		got, gerr := c.Get(ctx, u)
+		if gerr != nil || got == nil || !bytes.Equal(got.BaseCRL.Raw, fresh.BaseCRL.Raw) {
+			r.Violation(map[string]string{"kind": "stored-bundle-lost"}, fmt.Sprintf("round %d: a fresh bundle was stored (Set returned nil) while readers were reading the expired entry; afterwards Get returned err=%v", k, gerr), nil)
+		}
+		r.Event("set-overlapping-expired-reads")
+	}, r.PanicViolation("expired entry under contention"))
 }
